@@ -203,6 +203,49 @@ func runC15(c *core.Case) {
 		out = c15Try(f)
 	}
 
+	if r.P(0.0002) || (c.Tier == "thorough" && r.P(0.0002)) {
+		// a very long list (2^15 .. 2^17 + 3 IDs at one zoom) with the malformed ID among its last seven elements
+		n := veryLongLen(r)
+		z := r.Range(8, 30)
+		l := make([]string, n)
+		for i := range l {
+			l[i] = ref.ID{H: z, X: r.I64n(pow2(z)), Y: r.I64n(pow2(z)), V: z, F: r.Range(-pow2(z-1), pow2(z-1)-1)}.Ext()
+		}
+		bad, kind, arity := malformID(r, l[0])
+		pos := n - 1 - r.Intn(7)
+		l[pos] = bad
+		what = kind
+		c.Tag("very-long-list")
+		switch r.Intn(6) {
+		case 0:
+			do("integrate.ChangeExtendedSpatialIdsZoom", fmt.Sprintf("%d IDs, %q at %d", n, bad, pos), func() (any, error) { return integrate.ChangeExtendedSpatialIdsZoom(l, z, z) })
+		case 1:
+			do("integrate.MergeExtendedSpatialIds", fmt.Sprintf("%d IDs, %q at %d", n, bad, pos), func() (any, error) { return integrate.MergeExtendedSpatialIds(l, z, z) })
+		case 2:
+			nlayer = true
+			do("operated.GetNspatialIdsAroundVoxcels", fmt.Sprintf("%d IDs, %q at %d", n, bad, pos), func() (any, error) { return operated.GetNspatialIdsAroundVoxcels(l, 1, 0) })
+		case 3:
+			qz := clampI(z, 1, 31)
+			for i := range l {
+				if i != pos {
+					l[i] = ref.ID{H: qz, X: r.I64n(pow2(qz)), Y: r.I64n(pow2(qz)), V: z, F: int64(i % 7)}.Ext()
+				}
+			}
+			do("transform.ConvertExtendedSpatialIDsToQuadkeysAndVerticalIDs", fmt.Sprintf("%d IDs, %q at %d", n, bad, pos), func() (any, error) {
+				return transform.ConvertExtendedSpatialIDsToQuadkeysAndVerticalIDs(l, qz, z, 0, 0)
+			})
+		case 4:
+			expectFalse = true
+			do("detector.CheckExtendedSpatialIdsArrayOverlap", fmt.Sprintf("%d IDs, %q at %d", n, bad, pos), func() (any, error) { return detector.CheckExtendedSpatialIdsArrayOverlap(l, []string{l[1]}) })
+		default:
+			if !arity { // the pure converter only has to refuse wrong arity
+				l[pos] = strings.Join(strings.Split(l[0], "/")[:4], "/")
+				what = "arity-truncated"
+			}
+			do("shape.ConvertExtendedSpatialIdsToSpatialIds", fmt.Sprintf("%d IDs, %q at %d", n, l[pos], pos), func() (any, error) { return shape.ConvertExtendedSpatialIdsToSpatialIds(l) })
+		}
+		goto judge
+	}
 	switch k := r.Intn(40); k {
 	// ---- shape ----
 	case 0: // point lookups: bad zoom / nil point
@@ -795,6 +838,7 @@ func runC15(c *core.Case) {
 		}
 	}
 
+judge:
 	c.Call()
 	c.Tag("fn:" + fn)
 	c.Tag("corruption:" + strings.SplitN(what, "@", 2)[0])
